@@ -14,6 +14,10 @@ type frame struct {
 	freeVars    []*ObjectPtr
 	ip          int
 	basePointer int
+	// discardRet is set when the frame was re-entered by a self call whose
+	// result the caller discards (CALL; POP; RET): whatever the reused frame
+	// returns later, the function call as a whole returns undefined.
+	discardRet bool
 }
 
 // VM is a virtual machine that executes the bytecode compiled by Compiler.
@@ -620,6 +624,9 @@ func (v *VM) run() {
 							v.stack[v.curFrame.basePointer+p] =
 								v.stack[v.sp-numArgs+p]
 						}
+						if nextOp == parser.OpPop {
+							v.curFrame.discardRet = true
+						}
 						v.sp -= numArgs + 1
 						v.ip = -1 // reset IP to beginning of the frame
 						continue
@@ -634,6 +641,7 @@ func (v *VM) run() {
 				v.curFrame.ip = v.ip // store current ip before call
 				v.curFrame = &(v.frames[v.framesIndex])
 				v.curFrame.fn = callee
+				v.curFrame.discardRet = false
 				v.curFrame.freeVars = callee.Free
 				v.curFrame.basePointer = v.sp - numArgs
 				v.curInsts = callee.Instructions
@@ -683,6 +691,9 @@ func (v *VM) run() {
 			if int(v.curInsts[v.ip]) == 1 {
 				retVal = v.stack[v.sp-1]
 			} else {
+				retVal = UndefinedValue
+			}
+			if v.curFrame.discardRet {
 				retVal = UndefinedValue
 			}
 			//v.sp--
